@@ -10,6 +10,8 @@
 //	a<x>:<tag>[/<steps>]              route change: path <tag> for prefix <x>; <steps> (letters d<i> e f) are
 //	                                  sender steps performed after the first call the change makes downstream
 //	r<x>:<tag>[/<steps>]              route change: withdraw path <tag> of prefix <x>
+//	q<x>:<tag>[/<steps>]              the same, the withdrawn path carries another (foreign) path identifier
+//	                                  (direct mode without add-path only)
 //	b<tag>:<n>                        route changes: path <tag> for the n prefixes 100..100+n-1
 //	d<i>  e  f                        Dequeue (i-th pending key) / EmitOne / EmitOne until the batch is written
 //	O                                 EndOfRIB
@@ -368,7 +370,7 @@ func (w *world) add(x, tag int) {
 	shim{w}.AddPath(w.net(x), w.path(tag, pid))
 }
 
-func (w *world) remove(x, tag int) {
+func (w *world) remove(x, tag int, otherPid bool) {
 	if w.ribMode {
 		if !w.cfg.AddPath {
 			// a well-behaved Loc-RIB withdraws the path it gave the Adj-RIB-Out
@@ -391,6 +393,9 @@ func (w *world) remove(x, tag int) {
 		pid = w.directPid(cur)
 	}
 	delete(w.table, k)
+	if otherPid && !w.cfg.AddPath {
+		pid = (pid + 1) % 3
+	}
 	shim{w}.RemovePath(w.net(x), w.path(tag, pid))
 }
 
@@ -492,7 +497,7 @@ func exec(t tcase) (*world, error) {
 	}
 	for _, op := range t.ops {
 		switch op[0] {
-		case 'a', 'r':
+		case 'a', 'r', 'q':
 			x, tag, steps, e := two(op[1:])
 			if e != nil {
 				return nil, e
@@ -504,7 +509,7 @@ func exec(t tcase) (*world, error) {
 			if op[0] == 'a' {
 				w.add(x, tag)
 			} else {
-				w.remove(x, tag)
+				w.remove(x, tag, op[0] == 'q')
 			}
 			w.steps = ""
 		case 'b':
@@ -712,7 +717,11 @@ func genCase(r *hx.RNG, tr *hx.Trace) tcase {
 			t.ops = append(t.ops, fmt.Sprintf("a%d:%d%s", x, tag, steps()))
 			tr.Count("op_add")
 		case c < 60:
-			t.ops = append(t.ops, fmt.Sprintf("r%d:%d%s", x, tag, steps()))
+			kind := "r"
+			if !t.ribMode && !t.cfg.AddPath && r.Chance(30) {
+				kind = "q"
+			}
+			t.ops = append(t.ops, fmt.Sprintf("%s%d:%d%s", kind, x, tag, steps()))
 			tr.Count("op_remove")
 		case c < 75:
 			t.ops = append(t.ops, fmt.Sprintf("d%d", r.Intn(4)))
